@@ -14,6 +14,7 @@ consults a server object, never queues or hands out a channel it rejected.
 """
 import itertools
 import logging
+import threading
 
 from common import coq
 
@@ -24,7 +25,11 @@ LEVEL_TEXT = ("Machine-checked proof (Coq, closed under the global context) that
               "histories, all kinds; handler state proved to be that function of the history), and with no server "
               "object approves no channel request except the exit-status / xon-xoff notifications; branch tables "
               "are regenerated from the source AST every run and the model is compared with the real handlers.")
-LEVEL_NOTE = ("Trusted: Coq kernel + vm_compute; gen/c18.py (AST shape recognition, fail-closed); the hand-written "
+LEVEL_NOTE = ("The reply hand-over between the transport thread and the thread waiting in global_request / "
+              "request_x11 is outside the Coq model (the model takes grant/denial as the event's outcome): it is "
+              "pinned by gen/c18.py (value stored before Event.set()) and exercised under two deterministic "
+              "schedules with a switch point at Event.set(); other interleavings are not explored. "
+              "Trusted: Coq kernel + vm_compute; gen/c18.py (AST shape recognition, fail-closed); the hand-written "
               "effect of the four enable/cancel operations in coq/Model/C18.v, validated by driving the real "
               "methods; message parsing errors (bad UTF-8, truncated fields) are outside the model.")
 TECHNIQUE = "Coq proof (induction over histories, generated branch tables) + direct-drive differential correspondence"
@@ -48,7 +53,10 @@ def _key():
 
 
 EVENT_NAMES = ["x11-granted", "x11-denied", "agent", "forward-granted", "forward-denied",
-               "forward-inactive-granted", "forward-inactive-denied", "cancel", "cancel-inactive"]
+               "forward-inactive-granted", "forward-inactive-denied", "cancel", "cancel-inactive",
+               "other-global-granted", "other-global-denied"]
+NEV = len(EVENT_NAMES)
+SCHEDULES = ["sync", "switch-after-set"]
 _quiet = [False]
 
 
@@ -82,10 +90,35 @@ class SpyServer:
         return f
 
 
-class Rig:
-    """A real Transport that is never started; sends are recorded, the peer is simulated."""
+class SwitchEvent(threading.Event):
+    """threading.Event with a deterministic switch point: when armed, the thread that calls set() is held
+    right after the flag is set until the gate opens, i.e. the waiting thread runs first (a legal schedule)."""
 
-    def __init__(self, server_mode=False, server_object=None):
+    def __init__(self):
+        super().__init__()
+        self.armed = False
+        self.gate = threading.Event()
+
+    def arm(self):
+        self.gate = threading.Event()
+        self.armed = True
+
+    def set(self):
+        super().set()
+        if self.armed:
+            self.armed = False
+            self.gate.wait(3.0)
+
+
+class Rig:
+    """A real Transport that is never started; sends are recorded, the peer is simulated.
+    schedule "sync": the simulated server's reply is processed before the requesting call starts to wait;
+    schedule "switch-after-set": the reply is processed by a second thread (the transport thread's role) and
+    that thread is descheduled right after Event.set(), so the waiter runs before the setter's next statement."""
+
+    def __init__(self, server_mode=False, server_object=None, schedule="sync"):
+        self.schedule = schedule
+        self.pending = []         # (SwitchEvent, thread) of replies in flight
         from paramiko.transport import Transport
         from _loop import LoopSocket
         quiet()
@@ -124,21 +157,40 @@ class Rig:
             want = mm.get_boolean()
             if want:
                 chan = self.chans[rcid]
-                if self.grant:
-                    chan._request_success(Message())
-                else:
-                    chan._request_failed(Message())
+                fn = chan._request_success if self.grant else chan._request_failed
+                self._deliver(chan.event if isinstance(chan.event, SwitchEvent) else None, fn, Message())
         elif b[0] == 80:     # GLOBAL_REQUEST from the client
             name = mm.get_text()
             want = mm.get_boolean()
             if want:
+                ev = None
+                if self.schedule != "sync":
+                    ev = SwitchEvent()
+                    self.t.completion_event = ev      # the Event global_request() is about to wait on
                 if self.grant:
                     r = Message()
                     r.add_int(4242)
                     r.rewind()
-                    self.t._parse_request_success(r)
+                    self._deliver(ev, self.t._parse_request_success, r)
                 else:
-                    self.t._parse_request_failure(Message())
+                    self._deliver(ev, self.t._parse_request_failure, Message())
+
+    def _deliver(self, ev, fn, m):
+        if self.schedule == "sync" or ev is None:
+            fn(m)
+            return
+        ev.arm()
+        th = threading.Thread(target=fn, args=(m,), daemon=True)
+        self.pending.append((ev, th))
+        th.start()
+
+    def release(self):
+        """Let the reply-processing threads finish (the requesting call has returned or raised)."""
+        for ev, th in self.pending:
+            ev.gate.set()
+        for ev, th in self.pending:
+            th.join(5.0)
+        self.pending = []
 
     def new_channel(self):
         from paramiko.channel import Channel
@@ -150,6 +202,8 @@ class Rig:
         chan._set_transport(self.t)
         chan._set_window(self.t.default_window_size, self.t.default_max_packet_size)
         chan._set_remote_channel(cid + 1000, 65536, 32768)
+        if self.schedule != "sync":
+            chan.event = SwitchEvent()
         self.chans[cid + 1000] = chan
         return chan
 
@@ -184,8 +238,13 @@ class Rig:
                     t.cancel_port_forward("127.0.0.1", 8022)
                 finally:
                     t.active = True
+            elif code in (9, 10):
+                self.grant = code == 9
+                t.global_request("ping@example.com", ("x",), wait=True)
         except paramiko.SSHException:
             pass
+        finally:
+            self.release()
         self.grant = True
 
     def handler_state(self):
@@ -281,11 +340,11 @@ def enabled_after(hist):
     return {AGENT: agent, "x11": x11, "forwarded-tcpip": tcp}
 
 
-def drive_open(ctx, hist, custom, kinds, cases, server=None):
+def drive_open(ctx, hist, custom, kinds, cases, server=None, schedule="sync"):
     """Replay `hist` on a fresh transport, then offer each kind; returns nothing, appends cases."""
     rng = ctx.rng
     server_mode = server is not None
-    rig = Rig(server_mode=server_mode, server_object=server)
+    rig = Rig(server_mode=server_mode, server_object=server, schedule=schedule)
     try:
         for c in hist:
             rig.apply(c, custom)
@@ -300,7 +359,7 @@ def drive_open(ctx, hist, custom, kinds, cases, server=None):
             n0 = len(t._channels)
             chanid = rng.randrange(1 << 31)
             case = {"history": [EVENT_NAMES[c] for c in hist], "custom_handlers": custom, "kind": kind,
-                    "server_mode": server_mode}
+                    "server_mode": server_mode, "schedule": schedule}
             try:
                 t._parse_channel_open(open_payload(kind, chanid, rng))
             except Exception as e:
@@ -315,7 +374,7 @@ def drive_open(ctx, hist, custom, kinds, cases, server=None):
             queued = len(t.server_accepts) - q0
             added = len(t._channels) - n0
             replies = [(p, b) for p, b in rig.sent if p in (91, 92)]
-            ctx.count(("open", tuple(hist), custom, kind, server_mode), nontrivial=bool(hist) or kind in KINDS_ENABLED,
+            ctx.count(("open", tuple(hist), custom, kind, server_mode, schedule), nontrivial=bool(hist) or kind in KINDS_ENABLED,
                       kind="open-%s" % ("server" if server_mode else ("enabled-kind" if kind in KINDS_ENABLED else "other-kind")))
             if len(replies) != 1 or int.from_bytes(replies[0][1][:4], "big") != chanid:
                 ctx.fail("channel-open-reply", "CHANNEL_OPEN was not answered exactly once for the sender's channel id",
@@ -469,8 +528,11 @@ def drive_globals(ctx, cases, n_random):
 
 def run(ctx):
     rng = ctx.rng
-    ctx.rule = ("histories over the 9 outcomes of the four enable/cancel operations (x11 granted/denied, agent, "
-                "forward granted/denied x active/inactive, cancel active/inactive): exhaustive up to length 2 "
+    ctx.rule = ("histories over the 11 outcomes of the enable/cancel operations and of other global requests (x11 "
+                "granted/denied, agent, forward granted/denied x active/inactive, cancel active/inactive, other "
+                "wait=True global request granted/denied), each exhaustive history under two deterministic schedules "
+                "(reply processed before the caller waits; reply processed by a second thread that is descheduled "
+                "right after Event.set() so that the waiter runs first): exhaustive up to length 2 "
                 "(quick) / 3 (thorough) plus seeded random ones up to length 10, each with default or custom "
                 "handlers; after each history the three forwardable kinds, session, direct-tcpip and random / "
                 "near-miss kinds are offered; all 10 named channel requests plus random names x want_reply x "
@@ -485,16 +547,19 @@ def run(ctx):
     maxlen = 3 if ctx.thorough else 2
     hists = [()]
     for n in range(1, maxlen + 1):
-        hists += list(itertools.product(range(9), repeat=n))
+        hists += list(itertools.product(range(NEV), repeat=n))
+    nexh = len(hists)
     for _ in range(600 if ctx.thorough else 120):
-        hists.append(tuple(rng.randrange(9) for _ in range(rng.randrange(3, 11))))
+        hists.append(tuple(rng.randrange(NEV) for _ in range(rng.randrange(3, 11))))
     # ---- 1. implementation-level oracles (never depend on the translator / model) ----------
     cases = []
     for i, h in enumerate(hists):
         custom = rng.random() < 0.5
         kinds = list(KINDS_ENABLED) + ([rng.choice(other)] if len(h) > 1 else other) + \
             [rand_name(rng, list(KINDS_ENABLED) + other)]
-        drive_open(ctx, h, custom, kinds, cases)
+        # the exhaustive histories run under both schedules, the random ones under a random one
+        for schedule in (SCHEDULES if 0 < i < nexh else [rng.choice(SCHEDULES)]):
+            drive_open(ctx, h, custom, kinds, cases, schedule=schedule)
     # contrast: a server-mode transport with a server object accepts / rejects by the object's answer
     # (the three forwardable kinds are left out here: a server-mode transport whose server object approves
     # them calls the unset handler - TypeError - which is a server-side matter outside this property)
@@ -540,6 +605,7 @@ def replay(ctx, rep):
     if "kind" in case and "history" in case:
         hist = tuple(EVENT_NAMES.index(x) for x in case["history"])
         for _ in range(2):
-            drive_open(ctx, hist, bool(case.get("custom_handlers")), [case["kind"]], [])
+            drive_open(ctx, hist, bool(case.get("custom_handlers")), [case["kind"]], [],
+                       schedule=case.get("schedule", "sync"))
     else:
         run(ctx)
